@@ -53,6 +53,32 @@ func (m *Machine) indexAddr(base []Value, idx *Term, it types.Type) Value {
 
 func (m *Machine) symLoad(sp *SymPtr) Value {
 	n := len(sp.Base)
+	// 256-entry byte tables that are the identity except for a few entries (byte replacers,
+	// case-mapping tables): low byte of the index, overridden at the exceptions
+	if n == 256 {
+		exc := 0
+		ok := true
+		for k, v := range sp.Base {
+			t := v.(*Term)
+			if !t.IsConst() || t.Sort.W != 8 {
+				ok = false
+				break
+			}
+			if t.Val != uint64(k) {
+				exc++
+			}
+		}
+		if ok && exc <= 64 {
+			res := m.tb.Extract(sp.Idx, 7, 0)
+			for k, v := range sp.Base {
+				t := v.(*Term)
+				if t.Val != uint64(k) {
+					res = m.tb.Ite(m.tb.Eq(sp.Idx, m.tb.Const(64, uint64(k))), t, res)
+				}
+			}
+			return res
+		}
+	}
 	// constant tables with few distinct values: group indices by value
 	if n > 8 {
 		groups := map[*Term][]int{}
@@ -708,7 +734,38 @@ func (m *Machine) callBuiltin(caller *frame, callpos token.Pos, fn *ssa.Builtin,
 		m.unsupported("cap of %T", args[0])
 
 	case "min", "max":
-		m.unsupported("builtin %s", fn.Name())
+		sig := fn.Type().(*types.Signature)
+		pt := sig.Params().At(0).Type()
+		res := args[0]
+		for _, a := range args[1:] {
+			switch x := res.(type) {
+			case *Term:
+				_, signed, ok := intInfo(pt)
+				if !ok {
+					m.unsupported("min/max on %s", pt)
+				}
+				y := a.(*Term)
+				var lt *Term
+				if signed {
+					lt = tb.Cmp(OpSLt, x, y)
+				} else {
+					lt = tb.Cmp(OpULt, x, y)
+				}
+				if fn.Name() == "min" {
+					res = tb.Ite(lt, x, y)
+				} else {
+					res = tb.Ite(lt, y, x)
+				}
+			case float64:
+				y := a.(float64)
+				if (fn.Name() == "min") == (y < x) {
+					res = y
+				}
+			default:
+				m.unsupported("min/max on %T", res)
+			}
+		}
+		return res
 
 	case "recover":
 		return m.doRecover(caller)
